@@ -65,6 +65,14 @@ META = {'C01': {'text': 'Model-based stateful property testing: random histories
                  'functions.',
          'technique': 'controlled-schedule exploration (cooperative scheduler, rapid + bounded-exhaustive DFS) with history-fold oracle; '
                       'free-parallel stress for commutative merges'},
+ 'C10': {'text': 'Schedule exploration with the harness owning the instant of observation: the writer is parked inside a block commit (latch held) '
+                 'at generated and exhaustively enumerated mid-apply points while readers of every style run; plus free-parallel hammering for '
+                 'windows no yield point reaches. The per-row invariant is evaluated inside one callback.',
+         'design_ref': 'DESIGN.md §6 C10, §2.4',
+         'note': 'Trusts the workload invariant (every transaction writes a=v, b=-v, c=v); mid-apply points exist only between column buffers, '
+                 "windows inside one buffer's apply loop are reached only by the free-parallel mode.",
+         'technique': 'controlled-schedule exploration at latch-held yield points (rapid + exhaustive sweep) + free-parallel stress, invariant '
+                      'oracle inside the read callback'},
  'C11': {'text': 'Model-based stateful property testing of the allocator over fill patterns built to hit every branch of the free-slot search, plus '
                  'generated concurrent insert/delete programs under real parallelism checked with unique tags. Exploration.',
          'design_ref': 'DESIGN.md §6 C11',
